@@ -56,12 +56,12 @@ func genDHCP(prop string, seed uint64, tier string) Scenario {
 		sc.Extra = map[string]int{"quick": 1}
 	}
 	// weights: disc req decl rel capture release adv tick foreign session(dora) fsfail contention
-	wts := []int{18, 26, 5, 4, 5, 3, 10, 5, 6, 12, 0, 6, 4}
+	wts := []int{18, 26, 5, 4, 5, 3, 10, 5, 6, 12, 0, 6, 4, 3}
 	if prop == "C12" {
-		wts = []int{18, 26, 3, 3, 9, 6, 8, 4, 4, 14, 0, 5, 2}
+		wts = []int{18, 26, 3, 3, 9, 6, 8, 4, 4, 14, 0, 5, 2, 4}
 	}
 	if prop == "C18" {
-		wts = []int{10, 12, 3, 2, 4, 2, 6, 3, 4, 30, 3, 4, 1}
+		wts = []int{10, 12, 3, 2, 4, 2, 6, 3, 4, 30, 3, 4, 1, 2}
 		nops = 2 + r.n(14)
 		sc.Family = "lease"
 	}
@@ -124,6 +124,11 @@ func genDHCP(prop string, seed uint64, tier string) Scenario {
 			if r.chance(1, 2) {
 				sc.Ops = append(sc.Ops, Op{K: "req", M: a})
 			}
+		case 13:
+			// an abandoned re-DISCOVER in the middle of a lease must not prolong it: ACK at t0, DISCOVER
+			// (no REQUEST) half-way through, then a renewal / reboot / rebind just after t0 + lease time
+			m := client()
+			sc.Ops = append(sc.Ops, Op{K: "disc", M: m}, Op{K: "req", M: m}, Op{K: "adv", D: 5}, Op{K: "disc", M: m, X: r.n(2)}, Op{K: "adv", D: 5}, Op{K: "adv", D: r.pick(0, 1, 4)}, Op{K: "req", M: m, O: 1 + r.n(3)})
 		}
 	}
 	return sc
